@@ -8,6 +8,7 @@ import (
 	"fmt"
 	"os"
 	"runtime"
+	"strings"
 	"sync"
 	"time"
 
@@ -28,6 +29,7 @@ type actor struct {
 }
 
 type task struct {
+	throttle bool // the next callback of a throttle (started by Throttle.Done)
 	id int
 	f  func()
 }
@@ -141,8 +143,32 @@ func (s *Sched) hGo(f func()) bool {
 		return false
 	}
 	s.nextT++
-	s.tasks = append(s.tasks, &task{id: s.nextT, f: f})
+	// a go statement in Throttle.Done starts the next callback of a throttle
+	s.tasks = append(s.tasks, &task{id: s.nextT, f: f, throttle: stackHas("rescache.(*Throttle).Done")})
 	return true
+}
+
+// inThrottleTask is set while the explorer runs a task that is the next
+// callback of a throttle (requests made by it went through the throttle).
+var inThrottleTask bool
+
+// stackHas reports whether a function whose name contains one of subs is on
+// the caller's stack.
+func stackHas(subs ...string) bool {
+	pcs := make([]uintptr, 64)
+	n := runtime.Callers(2, pcs)
+	frames := runtime.CallersFrames(pcs[:n])
+	for {
+		f, more := frames.Next()
+		for _, sub := range subs {
+			if strings.Contains(f.Function, sub) {
+				return true
+			}
+		}
+		if !more {
+			return false
+		}
+	}
 }
 
 func (s *Sched) hThrottle(t *rescache.Throttle) {
@@ -275,7 +301,9 @@ func (s *Sched) RunTask(t *task) bool {
 		}
 	}
 	s.mu.Unlock()
+	inThrottleTask = t.throttle
 	t.f()
+	inThrottleTask = false
 	return s.Settle()
 }
 
